@@ -532,6 +532,19 @@ pub fn chk_exact(cx: &Ctx) -> Vec<Viol> {
             }
         }
     }
+    // ranges of up to 2^40 elements (never materialised): the predicate calls of a short-circuit terminal tell which
+    // aligned block each worker was handed
+    if cx.case.src == hcore::case::Src::PRangeBig && cx.obs.result.is_ok() {
+        let mut owner: BTreeMap<u64, BTreeSet<u16>> = BTreeMap::new();
+        for call in cx.obs.calls.iter().filter(|x| x.stage == ST_PRED) {
+            owner.entry((call.id - 1) / c as u64).or_default().insert(call.thread);
+        }
+        for (blk, ts) in &owner {
+            if ts.len() > 1 {
+                vs.push(v("exact-block", format!("Exact({}): elements of block {} were handed to threads {:?}", c, blk, ts)));
+            }
+        }
+    }
     // block -> thread map from the first closure of the chain (also for unwrapped sources)
     if !cx.case.term.is_short_circuit() && !cx.case.kinds().is_empty() && cx.obs.result.is_ok() {
         let mut owner: BTreeMap<usize, BTreeSet<u16>> = BTreeMap::new();
